@@ -36,5 +36,6 @@ def run(ctx):
     lib_py.unused_params(ctx, py, mods=("tables",), only=ps)
     lib_kind.py_lints(ctx, py, mods=("tables",), only=ps)
     lib_kind4.full_sort(ctx, py)
+    lib_kind4.sort_last(ctx, py)
     lib_py.ll_positional(ctx, py, P, only=ps)
     lib_mem.c_lints(ctx, ctx.program(), scopes.lib_scope("C07"))
